@@ -33,8 +33,10 @@ def variants(x, lists=True, float32=False, objects=False, layouts=False):
         try:
             if x.shape == (4,) and np.any(x):
                 out.append(("Quaternion object", ahrs.Quaternion(x.copy(), versor=False)))
+                out.append(("Quaternion object derived by arithmetic", -ahrs.Quaternion(-x, versor=False)))       # the same values, not a freshly constructed object
             elif x.ndim == 2 and x.shape[1] == 4 and np.all(np.any(x != 0, axis=1)):
                 out.append(("QuaternionArray object", ahrs.QuaternionArray(x.copy(), versors=False)))
+                out.append(("QuaternionArray object derived by slicing", ahrs.QuaternionArray(np.vstack([x, x[:1]]), versors=False)[:len(x)]))
             elif x.shape == (3, 3) and abs(np.linalg.det(x) - 1) < 1e-9 and np.abs(x @ x.T - np.eye(3)).max() < 1e-9:
                 out.append(("DCM object", DCM(x.copy())))
         except Exception:      # noqa: BLE001 - the class refused these values: no such form
